@@ -41,6 +41,7 @@ type RecDisk struct {
 	inner  *SparseDisk
 	mu     sync.Mutex
 	events []recEvent
+	slow   func(a uint64) // called before a write is recorded (nil: none): stretches the window in which a write is issued but not on disk
 }
 
 func NewRecDisk(sz uint64) *RecDisk { return &RecDisk{inner: NewSparseDisk(sz)} }
@@ -52,6 +53,9 @@ func (d *RecDisk) Close()                    {}
 func (d *RecDisk) Write(a uint64, v []byte) {
 	c := make([]byte, len(v))
 	copy(c, v)
+	if d.slow != nil {
+		d.slow(a)
+	}
 	d.mu.Lock()
 	d.events = append(d.events, recEvent{write: true, a: a, blk: c})
 	d.inner.Write(a, v)
